@@ -9,6 +9,7 @@ import PqV.Drv.Part
 import PqV.Drv.Merge
 import PqV.Drv.Thrift
 import PqV.Drv.Dtype
+import PqV.Drv.File
 /-
   `pqv` — line-protocol driver over the executable definitions of PqV (Spec, Impl, Gen).
   One request per line on stdin, one reply per line on stdout.  Pure per line.
@@ -34,6 +35,7 @@ def handleLine (line : String) : String :=
     | "merge" => handleMerge op a
     | "thrift" => handleThrift op a
     | "dtype" => handleDtype op a
+    | "file" => handleFile op a
     | _ => s!"err unknown-stream {stream}"
   | _ => "err bad-request"
 
